@@ -43,6 +43,13 @@ FIXED_OPS = [
     'x = tt + tt; x = reversed(x)', 'y = tt; y += tt; x = sorted(y)', 'x = items(d)[0] + tt + tt; x = reversed(x)', 'x = [tt + tt]; x = reversed(x[0])',
     'x = x + x; x = reversed(x)', 'x = filter(map(tt + tt, v => v), v => True)',
 ]
+SPECULATIVE_OPS = [
+    # forms the grammar does not have today (syntax errors, harmless): if a change introduces one of them it is explored like the rest
+    'l[0:0] = l', 'l[1:2] = l', 'l[:] = l + l', 'x = l; x[0:0] = l', 'l[0:0] += l', 'l **= 2', 'l @= l', 'extend(l, l)', 'l.extend(l)', 'append(l, 1)',
+    'l.append(1)', 'x = concat(l, l)', 'update(d, d2)', 'd.update(d2)', 'x = merge(d, d2)', 'x = repeat(l, 3)', 'x = range(20000)', 'x = [*l, *l]',
+    'x = {**d, **d2}', 'x = l ++ l', 'x = [v for v in l + l]', 'x = l << l', 'x = flatten([l, l])', 'x = zip(l, l) + zip(l, l)', 'x = chars(s + s)',
+    'x = copy(l) + copy(l)', 'x = slice(l + l, 0)', 'd |= d2', 'x = d | d2' if False else 'x = l * l',
+]
 ARG_TEMPLATES = ['(l)', '(d)', '(s)', '(l, l)', '(s, "a")', '(s, "")', '(l, v => v)', '(l, v => l)', '(d, (k, v) => l)',
                  '(l, (a, b) => a)', '(s, c => c)', '(l, 1)', '(l, 0, 1)', '(d, "0")', '(d, "new", l)', '(l, "")', '(s, "a", "aa")',
                  '(x)', '(x, "a")', '(x, v => v)',
@@ -78,7 +85,7 @@ def discover_ops():
     """Fixed operator forms + every (builtin, argument template) that yields or mutates a container/string
     in a dry run on small host objects."""
     api = snapshot.api()
-    ops = list(FIXED_OPS)
+    ops = list(FIXED_OPS) + SPECULATIVE_OPS
     for f in sorted(api.FUNCTIONS):
         if f.startswith('__') or f in ('rand', 'shuffle'):
             continue
